@@ -1,6 +1,7 @@
 package stdlib
 
 import (
+	"math"
 	. "rare/pkg/expressions" //lint:ignore ST1001 Legacy
 	"rare/pkg/slicepool"
 	"rare/pkg/stringSplitter"
@@ -283,6 +284,10 @@ func kfArrayRange(args []KeyBuilderStage) (KeyBuilderStage, error) {
 				sb.WriteRune(ArraySeparator)
 			}
 			sb.WriteString(strconv.Itoa(i))
+
+			if (incr > 0 && i > math.MaxInt-incr) || (incr < 0 && i < math.MinInt-incr) {
+				break // i += incr would wrap around and the loop go on
+			}
 		}
 
 		return sb.String()
